@@ -1,5 +1,6 @@
 """C18 — a trie's root depends only on its contents, and proofs prove exactly them
-(spec/Trie.tla, spec/TrieTrace.tla, harness/cmd/triedrv)."""
+(spec/Trie.tla, spec/TrieTrace.tla, harness/cmd/triedrv); the root survives commit and reload from the database also
+when the database garbage-collects and flushes (spec/TrieGC.tla, spec/TrieGCTrace.tla, triedrv gc / gcrandom)."""
 import json, re
 from concurrent.futures import ThreadPoolExecutor
 from pathlib import Path
@@ -8,6 +9,135 @@ from vlib import Broken
 
 FLAVORS = ["raw-hi-small-lazy-mem", "raw-hi-large-eager-disk", "raw-mix-mixed-lazy-disk",
            "raw-long-small-eager-mem", "sec-hi-small-lazy-disk", "sec-mix-large-eager-mem"]
+
+
+GC_FLAVORS = ["gc-raw-hi-large", "gc-raw-long-small-rehandle", "gc-raw-mix-small", "gc-sec-hi-large-onleaf", "gc-sec-mix-mixed"]
+GC_OPS = ("update", "tcommit", "ref", "deref", "flush", "flushfail", "cap", "capfail", "open", "reopen")
+GC_MISMATCH = re.compile(r'mismatch = <<\s*(\d+),\s*"([\w-]+)",\s*"(\w+)",\s*"([^"]*)"')
+
+
+def gc_sig(cat, flavor, op):
+    return {"kind": cat, "trie": "secure" if "-sec-" in flavor else "raw", "op": op, "layer": "triedb-gc"}
+
+
+def gc_random(ctx, drv, seed, ntr, depth, tag):
+    """code -> spec for the node database: seeded call sequences on the real trie.Database, validated by TrieGCTrace.tla.
+    Returns (info, rows, tlc_result)."""
+    tr = ctx.work / ("triegctrace-%s.ndjson" % tag)
+    p = vlib.run([drv, "gcrandom", "-seed", seed, "-n", ntr, "-depth", depth, "-out", tr], timeout=3000, check=True)
+    info = json.loads(p.stdout.strip().splitlines()[-1])
+    t = vlib.tlc(ctx, "TrieGCTrace", "TrieGCTrace.cfg", workers=1, timeout=3000, tag="TrieGCTrace-%s" % tag,
+                 files={"triegctrace.ndjson": tr.read_text()})
+    return info, vlib.read_ndjson(tr), t
+
+
+def gc_trace_verdict(info, rows, t, seed, ntr, depth):
+    """-> (validated traces, events, None) or (0, 0, (signature, replay object)); Broken if the machinery failed."""
+    if t.ok:
+        if info["failed_checks"]:
+            raise Broken("gc driver check failed %d times but TrieGCTrace accepted every event" % info["failed_checks"])
+        return info["traces"], info["events"], None
+    if t.violated == "ObservationsConform":
+        m = GC_MISMATCH.findall(t.out)
+        if not m:
+            raise Broken("cannot parse the mismatch reported by TrieGCTrace:\n" + t.out[-2000:])
+        line, flavor, op, why = int(m[-1][0]), m[-1][1], m[-1][2], m[-1][3]
+        cat = why.split(":")[0]
+        if cat == "driver":
+            raise Broken("gc driver broke its own contract: " + why)
+        start = max(i for i in range(line) if rows[i]["op"] == "tracereset")
+        return 0, 0, (gc_sig(cat, flavor, op),
+                      {"gc_random": {"seed": seed, "n": ntr, "depth": depth}, "flavor": flavor, "category": cat, "detail": why,
+                       "trace_file_line": line, "events": rows[start:line], "from": "implementation trace rejected by TrieGCTrace.tla"})
+    if t.violated:
+        raise Broken("TrieGCTrace: design invariant %s violated on an implementation trace:\n%s" % (t.violated, t.out[-2000:]))
+    raise Broken("TrieGCTrace did not accept the trace (contract violation by the driver or TLC error):\n" + (t.error or "")[-2000:])
+
+
+def gc_layer(ctx, drv):
+    """The node database behind the tries (trie/database.go): Trie.Commit into the memory cache, meta-root references,
+    the reference-counting garbage collector, Database.Commit / Cap, failing disk writes, restarts.  Runs in a thread
+    next to the other layers; nothing is reported from here (the caller does, in the main thread)."""
+    quick = ctx.quick
+    design = "MCTrieGC_small.cfg" if quick else "MCTrieGC_big.cfg"
+    emits = ["MCTrieGC_emit.cfg", "MCTrieGC_emitgc.cfg", "MCTrieGC_emitfl.cfg"] if quick else \
+            ["MCTrieGC_emit7.cfg", "MCTrieGC_emitgc10.cfg", "MCTrieGC_emitfl9.cfg"]
+    leads = ["MCTrieGC_lead.cfg", "MCTrieGC_lead2.cfg"]
+    jobs = [(design, 8)] + [(c, 2) for c in leads] + [(c, 6) for c in emits]
+    with ThreadPoolExecutor(max_workers=len(jobs)) as ex:
+        res = dict(zip([j[0] for j in jobs],
+                       ex.map(lambda j: vlib.tlc(ctx, "MCTrieGC", j[0], workers=j[1], timeout=3000), jobs)))
+    out = {"runs": [], "violations": [], "samples": []}
+    for cfg in [design] + emits:
+        r = res[cfg]
+        if not r.ok:
+            raise Broken("design-level TLC run failed on MCTrieGC/%s: violated=%s\n%s" % (cfg, r.violated, (r.error or r.out[-2500:])))
+        out["runs"].append({"cfg": cfg, "distinct": r.distinct, "generated": r.generated, "depth": r.depth, "wall_s": round(r.wall, 1)})
+    # spec-drift guard: with the known ways of breaking the contract switched on, TLC must find the violation
+    for cfg in leads:
+        r = res[cfg]
+        if r.violated != "LiveRootsLoadable":
+            raise Broken("lead configuration %s (a database that does not count meta-root references / uncaches before the write) "
+                         "no longer violates LiveRootsLoadable: violated=%s\n%s" % (cfg, r.violated, (r.error or r.out[-1500:])))
+    out["states"] = res[design].distinct
+    out["transitions"] = res[design].generated
+    # spec -> code: every transition of the emitting models as one behaviour on the real trie.Database
+    out["behaviours"] = out["calls"] = out["probes"] = out["shared_derefs"] = out["same_root_twice"] = 0
+    ops = {}
+    for cfg in emits:
+        r = res[cfg]
+        tag = cfg.replace("MCTrieGC_", "").replace(".cfg", "")
+        beh = ctx.work / ("gc-behaviours-%s.ndjson" % tag)
+        beh.write_text("".join(s + "\n" for s in r.printed))
+        n = len(r.printed)
+        if n < 1000:
+            raise Broken("TLC emitted only %d behaviours for %s" % (n, cfg))
+        resf = ctx.work / ("gc-replay-%s.json" % tag)
+        vlib.run([drv, "gc", "-in", beh, "-out", resf, "-seed", ctx.seed], timeout=3000, check=True)
+        rj = json.loads(resf.read_text())
+        if rj["behaviours"] != n or any(rj["flavors"][fl]["Behaviours"] != n for fl in GC_FLAVORS):
+            raise Broken("gc driver replayed %d of %d behaviours of %s" % (rj["behaviours"], n, cfg))
+        for op, k in rj["ops"].items():
+            ops[op] = ops.get(op, 0) + k
+        out["behaviours"] += n
+        for fl in GC_FLAVORS:
+            st = rj["flavors"][fl]
+            out["calls"] += st["Calls"]
+            out["probes"] += st["Probes"]
+            out["shared_derefs"] += st["SharedDerefs"]
+            out["same_root_twice"] += st["SameRootTwice"]
+        for m in (rj.get("violations") or []):
+            out["violations"].append((gc_sig(m["cat"], m["flavor"], m["op"]),
+                                      {"gc_behaviour": m["behaviour_ops"], "flavor": m["flavor"], "step": m["step"], "category": m["cat"],
+                                       "detail": m["detail"], "expected": m["expected"], "got": m["got"], "driver_seed": ctx.seed}))
+        out["samples"].append({"gc_behaviour_from_TLC": json.loads(r.printed[-1])})
+        vlib.log("gc: TLC %s: %d distinct / %d generated, %d behaviours x %d flavours replayed, %d violations"
+                 % (cfg, r.distinct, r.generated, n, len(GC_FLAVORS), len(rj.get("violations") or [])))
+    for op in GC_OPS:
+        if not ops.get(op):
+            raise Broken("no %s call among the emitted gc behaviours" % op)
+    if not out["violations"] and (not out["shared_derefs"] or not out["same_root_twice"]):
+        raise Broken("gc behaviours no longer release a root that shares nodes with a live one (%d) / commit the same content twice (%d)"
+                     % (out["shared_derefs"], out["same_root_twice"]))
+    out["ops"] = ops
+    # code -> spec
+    batches = [(10, 150)] if quick else [(40, 300)] * 4
+    out["traces"] = out["events"] = 0
+    out["random"] = {}
+    for bi, (ntr, depth) in enumerate(batches):
+        seed = ctx.seed * 100 + 50 + bi
+        info, rows, t = gc_random(ctx, drv, seed, ntr, depth, str(bi))
+        tv, ev, bad = gc_trace_verdict(info, rows, t, seed, ntr, depth)
+        out["traces"] += tv
+        out["events"] += ev
+        for k in ("max_known_roots", "same_content_committed_again", "refs_beyond_first"):
+            out["random"][k] = max(out["random"].get(k, 0), info[k])
+        if bad:
+            out["violations"].append(bad)
+        elif len(out["samples"]) < 4:
+            out["samples"].append({"gc_implementation_trace_prefix": rows[1:9]})
+    vlib.log("gc: %d random traces / %d events validated by TrieGCTrace" % (out["traces"], out["events"]))
+    return out
 
 
 def sig_of(cat, flavor, op):
@@ -83,6 +213,8 @@ def run(ctx):
     drv = vlib.go_build("triedrv")
     cov = {"flavors": FLAVORS}
     samples = []
+    gc_pool = ThreadPoolExecutor(max_workers=1)
+    gc_future = gc_pool.submit(gc_layer, ctx, drv)        # the node-database layer runs next to the others
 
     # 1. design: exhaustive TLC on the bounded model (all C18 invariants)
     designs = ["MCTrie_small.cfg"] if quick else ["MCTrie_big.cfg", "MCTrie_all2.cfg", "MCTrie_fixed.cfg"]
@@ -187,7 +319,23 @@ def run(ctx):
         vlib.report(ctx, {"kind": "derivesha", "trie": "stack", "op": "derive"}, {"derive": m, "driver_seed": ctx.seed, "n": nl})
     cov.update(derivesha_lists=dj["lists"], derivesha_items=dj["items"])
 
-    cov.update(traces_validated_against_impl=(nbeh * len(FLAVORS) if not ctx.violations else 0) + validated,
+    # 5. the node database: garbage collection and flushing (spec/TrieGC.tla)
+    gc = gc_future.result()
+    gc_pool.shutdown()
+    for sig, rp in gc["violations"]:
+        vlib.report(ctx, sig, rp)
+    cov["tlc_runs"] += gc["runs"]
+    cov["states"] += gc["states"]
+    cov["transitions"] += gc["transitions"]
+    cov.update(gc_flavors=GC_FLAVORS, gc_behaviours_replayed=gc["behaviours"], gc_replay_calls=gc["calls"], gc_root_probes=gc["probes"],
+               gc_ops_replayed=gc["ops"], gc_derefs_of_roots_sharing_nodes_with_live_roots=gc["shared_derefs"],
+               gc_same_content_committed_twice=gc["same_root_twice"], gc_random_traces_validated_by_TLC=gc["traces"],
+               gc_random_events=gc["events"], gc_random=gc["random"],
+               gc_lead_configs_violate="LiveRootsLoadable (MCTrieGC_lead.cfg: meta-root references not counted; MCTrieGC_lead2.cfg: uncached before the write)")
+    samples += gc["samples"][:3]
+    validated += gc["traces"]
+
+    cov.update(traces_validated_against_impl=(nbeh * len(FLAVORS) + gc["behaviours"] * len(GC_FLAVORS) if not ctx.violations else 0) + validated,
                samples=samples, exhaustive=True,
                rule="every transition of the bounded Trie state graph (TLC, %s) replayed on 6 trie flavours with the spec's expected "
                     "observation and content, roots compared with rebuilt tries and a yellow-paper reference; %d seeded random traces "
@@ -197,6 +345,9 @@ def run(ctx):
         "a proof database is content-addressed: the verifier's key-value view maps hash(blob) -> blob (as les/snap build it)",
         "the empty trie has no proof nodes: VerifyProof reports an error instead of proving absence (specified: EmptyTrieHasNoProof)",
         "StackTrie is specified for prefix-free key sets inserted in ascending order only",
+        "node database: specified through the interface - a root loads from Trie.Commit until its last meta-root reference is dropped, and for ever "
+        "once Database.Commit / Cap(0) returned nil; Trie.Commit only on a handle whose base root is alive; references between tries "
+        "(Reference(storage root, account node)), partial Cap(limit > 0), the clean cache and concurrent use are out of scope",
         "TLC, the Go runtime, rlp and crypto packages are trusted",
     ])
 
@@ -206,6 +357,25 @@ def replay(ctx, path):
     rp = j["replay"]
     drv = vlib.go_build("triedrv")
     seed = rp.get("driver_seed", j.get("seed", 1))
+    if "gc_behaviour" in rp:
+        f = ctx.work / "gc-one.ndjson"
+        f.write_text(json.dumps(rp["gc_behaviour"]) + "\n")
+        resf = ctx.work / "gc-one.json"
+        vlib.run([drv, "gc", "-in", f, "-out", resf, "-seed", seed, "-flavor", rp["flavor"]], check=True)
+        rj = json.loads(resf.read_text())
+        for m in (rj.get("violations") or []):
+            vlib.report(ctx, gc_sig(m["cat"], m["flavor"], m["op"]), {"gc_behaviour": m["behaviour_ops"], "flavor": m["flavor"], "step": m["step"],
+                                                                         "category": m["cat"], "detail": m["detail"], "driver_seed": seed})
+        print(json.dumps(rj["flavors"][rp["flavor"]]))
+        return
+    if "gc_random" in rp:
+        g = rp["gc_random"]
+        info, rows, t = gc_random(ctx, drv, g["seed"], g["n"], g["depth"], "replay")
+        _, _, bad = gc_trace_verdict(info, rows, t, g["seed"], g["n"], g["depth"])
+        if bad:
+            vlib.report(ctx, bad[0], bad[1])
+        print(json.dumps(info))
+        return
     if "derive" in rp:
         p = vlib.run([drv, "derive", "-seed", seed, "-n", rp["n"]], check=True)
         dj = json.loads(p.stdout.strip().splitlines()[-1])
